@@ -20,6 +20,8 @@ fuzz_stage() {
   # second engine: libFuzzer over the same checks (see harness/src/fuzz.rs). Additive: if the nightly
   # fuzz build is unavailable the proptest verdict stands and the evidence says so.
   local ID="$1" SEED="${VERIF_SEED:-1}" OUT=$VERIF/out
+  # libFuzzer wants a small unsigned number: anything else is hashed (0 would mean "random")
+  case "$SEED" in ''|*[!0-9]*|??????????*|0) SEED=$(( $(printf '%s' "$SEED" | cksum | cut -d' ' -f1) % 2147483646 + 1 ));; esac
   # runs chosen so that the stage takes roughly 5-10 minutes at the observed executions per second
   local RUNS=400000
   case "$ID" in C06|C07) RUNS=60000;; C10) RUNS=80000;; C13) RUNS=8000;; C20) RUNS=200000;; esac
